@@ -187,6 +187,12 @@ class _ControlLoopRunner:
             due.append(tick)
         return due
 
+    def _has_scheduled_step_work(self) -> bool:
+        """True while a delayed step event (a retry waiting out its delay) is scheduled."""
+        return any(
+            isinstance(tick, TickAddEvent) for _, _, tick in self.scheduled_wakeups
+        )
+
     def run_worker(self, command: CommandRunWorker) -> None:
         """Queue a worker for a step function.
 
@@ -289,7 +295,10 @@ class _ControlLoopRunner:
             await self.cleanup_tasks()
             raise command.exception
         elif isinstance(command, CommandScheduleIdleCheck):
-            if not self._idle_check_pending:
+            # A retry waiting out its delay is pending work the reducer cannot see
+            # (it lives in the wake-up heap): the run is not idle until it has fired.
+            # Reducing that tick re-schedules the idle check once the run quiesces.
+            if not self._idle_check_pending and not self._has_scheduled_step_work():
                 self.tick_buffer.append(TickIdleCheck())
                 self._idle_check_pending = True
             return None
